@@ -19,7 +19,7 @@ def main():
     prop, mdir = sys.argv[1], os.path.abspath(sys.argv[2])
     all_checks = "--all-checks" in sys.argv
     tier = "thorough" if "--thorough" in sys.argv else "quick"
-    name = ("r4" if "/mut-out4/" in mdir else "r3" if "/mut-out3/" in mdir else "r2" if "/mut-out2/" in mdir else "r1") + os.path.basename(mdir.rstrip("/"))
+    name = ("r5" if "/mut-out5/" in mdir else "r4" if "/mut-out4/" in mdir else "r3" if "/mut-out3/" in mdir else "r2" if "/mut-out2/" in mdir else "r1") + os.path.basename(mdir.rstrip("/"))
     D = f"/tmp/ev-{prop}-{name}"
     shutil.rmtree(D, ignore_errors=True)
     os.makedirs(D)
